@@ -4,13 +4,20 @@ From Coq Require Import Sorting.Permutation Sorting.Sorted OrderedTypeEx.
 Open Scope string_scope. Open Scope list_scope.
 
 (* ---- the budget ------------------------------------------------------------------ *)
-Lemma cut_budget_length : forall budget gs, (0 <= budget)%Z ->
+Lemma cut_budget_length : forall budget gs,
   (Z.of_nat (List.length (cut_budget budget gs)) <= Z.max budget 1)%Z.
 Proof.
-  intros budget gs Hb. unfold cut_budget.
+  intros budget gs. unfold cut_budget.
   destruct (Z.of_nat (List.length gs) >? budget)%Z eqn:E.
   - apply Z.gtb_lt in E. rewrite app_length, firstn_length. cbn [List.length]. lia.
   - assert (Z.of_nat (List.length gs) <= budget)%Z by (destruct (Z.gtb_spec (Z.of_nat (List.length gs)) budget); [discriminate | lia]). lia.
+Qed.
+
+Lemma cut_budget_negative : forall budget gs, (budget < 0)%Z -> cut_budget budget gs = [List.concat gs].
+Proof.
+  intros budget gs Hb. unfold cut_budget.
+  assert (E : (Z.of_nat (List.length gs) >? budget)%Z = true) by (apply Z.gtb_lt; lia). rewrite E.
+  replace (Z.to_nat (Z.max (budget - 1) 0)) with 0 by lia. reflexivity.
 Qed.
 
 Section G.
@@ -19,17 +26,377 @@ Section G.
 
   Lemma group_with_count : forall o3 o4 pkgs budget gs,
     group_with rep_name rep_sat o3 o4 pkgs budget = Ok gs ->
-    (0 <= budget)%Z /\ (Z.of_nat (List.length gs) <= Z.max budget 1)%Z.
+    (Z.of_nat (List.length gs) <= Z.max budget 1)%Z.
   Proof.
     intros o3 o4 pkgs budget gs H. unfold group_with in H.
     destruct (merge_all rep_name rep_sat (o3 (replace_map pkgs)) (by_origin pkgs)) as [m| | |]; try discriminate.
-    cbn [rbind] in H.
-    destruct ((budget <? 0)%Z || (budget >? max_cap)%Z) eqn:E; try discriminate.
-    apply orb_false_iff in E. destruct E as [E1 _]. apply Z.ltb_ge in E1.
-    inversion H; subst. split; auto. rewrite map_length. apply cut_budget_length; auto.
+    cbn [rbind] in H. inversion H; subst. rewrite map_length. apply cut_budget_length.
   Qed.
 
-  Lemma group_with_negative : forall o3 o4 pkgs budget,
-    (budget < 0)%Z -> forall gs, group_with rep_name rep_sat o3 o4 pkgs budget <> Ok gs.
-  Proof. intros o3 o4 pkgs budget Hb gs H. apply group_with_count in H. lia. Qed.
+  (* at the level of groupByOriginAndSize a negative budget gives one group *)
+  Lemma group_with_negative : forall o3 o4 pkgs budget gs,
+    (budget < 0)%Z -> group_with rep_name rep_sat o3 o4 pkgs budget = Ok gs -> List.length gs = 1.
+  Proof.
+    intros o3 o4 pkgs budget gs Hb H. unfold group_with in H.
+    destruct (merge_all rep_name rep_sat (o3 (replace_map pkgs)) (by_origin pkgs)) as [m| | |]; try discriminate.
+    cbn [rbind] in H. inversion H; subst. rewrite cut_budget_negative by exact Hb. reflexivity.
+  Qed.
+
+  (* the grouping never panics for lack of a byPackage entry when it returns at all:
+     the only outcomes are Ok and Err or the (unreachable) missing-map-entry panic *)
 End G.
+
+(* ---- splitLayers: every file exactly once, in its writer's layer ------------------- *)
+Lemma upd_length : forall A i (f : A -> A) l, List.length (upd i f l) = List.length l.
+Proof. induction i; destruct l; simpl; auto. Qed.
+Lemma nth_upd_eq : forall A i (f : A -> A) l d, i < List.length l -> nth i (upd i f l) d = f (nth i l d).
+Proof. induction i; destruct l; simpl; intros; try lia; auto. apply IHi. lia. Qed.
+Lemma nth_upd_neq : forall A i j (f : A -> A) l d, i <> j -> nth j (upd i f l) d = nth j l d.
+Proof. induction i; destruct l; destruct j; simpl; intros; try lia; auto. Qed.
+
+Lemma pop_to_dirs : forall p l, Forall (fun e => is_dir e = true) l -> Forall (fun e => is_dir e = true) (pop_to p l).
+Proof.
+  induction l as [| e r IH]; intros H; simpl; auto. inversion H; subst.
+  destruct (path_eqb (e_path e) p); auto.
+Qed.
+Lemma push_dir_dirs : forall st f, is_dir f = true -> Forall (fun e => is_dir e = true) st ->
+  Forall (fun e => is_dir e = true) (push_dir st f).
+Proof.
+  intros st f Hf H. unfold push_dir. apply Forall_app. split; [| constructor; auto].
+  apply Forall_rev. apply pop_to_dirs. apply Forall_rev. exact H.
+Qed.
+Lemma align_dirs : forall main l, Forall (fun e => is_dir e = true) main -> Forall (fun e => is_dir e = true) (align main l).
+Proof.
+  induction main as [| m mr IH]; intros l H; simpl; auto.
+  destruct l as [| x lr]; auto. destruct (path_eqb (e_path m) (e_path x)); auto. inversion H; subst. apply IH; auto.
+Qed.
+
+Lemma writer_of_bound : forall n gs i found k,
+  (forall j, found = Some j -> j < i) -> writer_of n gs i found = Some k -> k < i + List.length gs.
+Proof.
+  induction gs as [| g r IH]; intros i found k Hf H; simpl in *.
+  - rewrite Nat.add_0_r. apply Hf. exact H.
+  - apply IH in H; [lia|]. intros j Hj. destruct (existsb (String.eqb n) g); [inversion Hj; lia | apply Hf in Hj; lia].
+Qed.
+
+(* the layer index the model writes an entry to *)
+Definition writer_index (gs : list (list string)) (own : path -> option string) (p : path) : option nat :=
+  match own p with None => Some (List.length gs) | Some n => writer_of n gs 0 None end.
+
+Definition assigned (gs : list (list string)) (own : path -> option string) (i : nat) (e : entry) : bool :=
+  option_eqb Nat.eqb (writer_index gs own (e_path e)) (Some i).
+
+Record split_inv (gs : list (list string)) (own : path -> option string) (st : lstate) (done : list entry) : Prop := {
+  inv_len : List.length (s_outs st) = S (List.length gs);
+  inv_main : Forall (fun e => is_dir e = true) (s_main st);
+  inv_files : forall i, filter nondir (nth i (s_outs st) []) = filter (fun e => nondir e && assigned gs own i e) done;
+  inv_all : forall i e, In e done -> assigned gs own i e = true -> In e (nth i (s_outs st) [])
+}.
+
+Lemma filter_extra_nil : forall (todo : list entry) f,
+  Forall (fun e => is_dir e = true) todo ->
+  filter nondir (map (fun d => with_mtime d f) (filter (fun d => negb (path_eqb (e_path d) (e_path f))) todo)) = [].
+Proof.
+  induction todo as [| d r IH]; intros f H; simpl; auto. inversion H; subst.
+  destruct (negb (path_eqb (e_path d) (e_path f))); simpl; auto.
+  unfold nondir, is_dir in *. simpl. destruct (e_kind d); try discriminate. simpl. apply IH; auto.
+Qed.
+
+Lemma split_step_inv : forall gs own st done f st',
+  split_inv gs own st done -> split_step gs own (Ok st) f = Ok st' -> split_inv gs own st' (done ++ [f]).
+Proof.
+  intros gs own st done f st' [Hlen Hmain Hfiles Hall] H. unfold split_step in H. cbn [rbind] in H.
+  set (main := if is_dir f then push_dir (s_main st) f else s_main st) in *.
+  assert (Hmain' : Forall (fun e => is_dir e = true) main).
+  { unfold main. destruct (is_dir f) eqn:D; auto. apply push_dir_dirs; auto. }
+  assert (W : exists w, writer_index gs own (e_path f) = Some w /\ w < S (List.length gs) /\
+     st' = {| s_main := main; s_stacks := upd w (fun _ => main) (s_stacks st);
+              s_outs := upd w (fun o => o ++ map (fun d => with_mtime d f)
+                 (filter (fun d => negb (path_eqb (e_path d) (e_path f))) (align main (nth w (s_stacks st) []))) ++ [f]) (s_outs st) |}).
+  { unfold writer_index. destruct (own (e_path f)) as [n|].
+    - destruct (writer_of n gs 0 None) as [w|] eqn:E; [| discriminate]. cbn [rbind] in H. inversion H; subst.
+      exists w. repeat split; auto. apply writer_of_bound in E; [lia | intros; discriminate].
+    - cbn [rbind] in H. inversion H; subst. exists (List.length gs). repeat split; auto. }
+  destruct W as [w [Hw [Hwb ->]]]. constructor; cbn [s_outs s_main].
+  - rewrite upd_length. exact Hlen.
+  - exact Hmain'.
+  - intros i. rewrite filter_app. simpl filter.
+    destruct (Nat.eq_dec w i) as [<- | Hne].
+    + rewrite nth_upd_eq by lia. rewrite !filter_app, filter_extra_nil by (apply align_dirs; exact Hmain').
+      assert (A : assigned gs own w f = true) by (unfold assigned; rewrite Hw; simpl; apply Nat.eqb_refl).
+      rewrite Hfiles, A, andb_true_r. simpl. destruct (nondir f); reflexivity.
+    + rewrite nth_upd_neq by exact Hne.
+      assert (A : assigned gs own i f = false) by (unfold assigned; rewrite Hw; simpl; apply Nat.eqb_neq; exact Hne).
+      rewrite Hfiles, A, andb_false_r, app_nil_r. reflexivity.
+  - intros i e He Ha. apply in_app_or in He. destruct (Nat.eq_dec w i) as [<- | Hne].
+    + rewrite nth_upd_eq by lia. destruct He as [He | [<- | []]].
+      * apply in_or_app. left. apply Hall; auto.
+      * apply in_or_app. right. apply in_or_app. right. simpl; auto.
+    + rewrite nth_upd_neq by exact Hne. destruct He as [He | [<- | []]].
+      * apply Hall; auto.
+      * unfold assigned in Ha. rewrite Hw in Ha. simpl in Ha. apply Nat.eqb_eq in Ha. contradiction.
+Qed.
+
+Lemma split_fold_inv : forall gs own es st done st',
+  split_inv gs own st done -> fold_left (split_step gs own) es (Ok st) = Ok st' -> split_inv gs own st' (done ++ es).
+Proof.
+  induction es as [| f r IH]; intros st done st' Hinv H.
+  - simpl in H. inversion H; subst. rewrite app_nil_r. exact Hinv.
+  - cbn [fold_left] in H. destruct (split_step gs own (Ok st) f) as [st1| | |] eqn:E.
+    + replace (done ++ f :: r) with ((done ++ [f]) ++ r) by (rewrite <- app_assoc; reflexivity).
+      eapply IH; [| exact H]. eapply split_step_inv; eauto.
+    + exfalso. clear -H. induction r; simpl in H; [discriminate | auto].
+    + exfalso. clear -H. induction r; simpl in H; [discriminate | auto].
+    + exfalso. clear -H. induction r; simpl in H; [discriminate | auto].
+Qed.
+
+Lemma nth_repeat_nil : forall A n i, nth i (repeat (@nil A) n) [] = [].
+Proof. induction n; destruct i; simpl; auto. Qed.
+
+Lemma split_each_file_once : forall gs own es layers,
+  split_layers gs own es = Ok layers ->
+  List.length layers = S (List.length gs) /\
+  (forall i, filter nondir (nth i layers []) = filter (fun e => nondir e && assigned gs own i e) es) /\
+  (forall i e, In e es -> assigned gs own i e = true -> In e (nth i layers [])).
+Proof.
+  intros gs own es layers H. unfold split_layers in H.
+  destruct (fold_left (split_step gs own) es (Ok {| s_main := []; s_stacks := repeat [] (S (List.length gs)); s_outs := repeat [] (S (List.length gs)) |})) as [st| | |] eqn:E; try discriminate.
+  cbn [rbind] in H. inversion H; subst.
+  assert (I0 : split_inv gs own {| s_main := []; s_stacks := repeat [] (S (List.length gs)); s_outs := repeat [] (S (List.length gs)) |} []).
+  { constructor; cbn [s_outs s_main].
+    - apply repeat_length.
+    - constructor.
+    - intros. rewrite nth_repeat_nil. reflexivity.
+    - intros i e []. }
+  destruct (split_fold_inv gs own es _ [] st I0 E) as [Hl _ Hf Ha]. simpl in *. repeat split; auto.
+Qed.
+
+(* with disjoint groups, the writer the code picks (the last group naming the
+   package) is the group the specification names (the one containing it) *)
+Lemma mem_in : forall x l, mem x l = true <-> In x l.
+Proof.
+  intros. unfold mem. rewrite existsb_exists. split.
+  - intros [y [Hy E]]. apply String.eqb_eq in E. subst. exact Hy.
+  - intros H. exists x. split; auto. apply String.eqb_refl.
+Qed.
+
+Lemma group_index_none : forall n gs, ~ In n (List.concat gs) -> group_index n gs = None.
+Proof.
+  induction gs as [| g r IH]; intros H; simpl in *; auto.
+  destruct (mem n g) eqn:E.
+  - apply mem_in in E. exfalso. apply H. apply in_or_app. auto.
+  - rewrite IH; auto. intros G. apply H. apply in_or_app. auto.
+Qed.
+
+Lemma writer_of_group_index : forall n gs i found, NoDup (List.concat gs) ->
+  writer_of n gs i found = match group_index n gs with Some k => Some (i + k) | None => found end.
+Proof.
+  induction gs as [| g r IH]; intros i found Hnd; simpl in *; auto.
+  assert (Hr : NoDup (List.concat r)) by (clear -Hnd; induction g as [| x g IHg]; simpl in Hnd; [exact Hnd | inversion Hnd; auto]).
+  rewrite IH by exact Hr. fold (mem n g). destruct (mem n g) eqn:E.
+  - apply mem_in in E. rewrite group_index_none.
+    + f_equal. lia.
+    + intros G. revert Hnd E G. clear. induction g as [| x g IHg]; simpl; intros Hnd E G; [contradiction|].
+      inversion Hnd; subst. destruct E as [-> | E]; [apply H1; apply in_or_app; auto | apply IHg; auto].
+  - destruct (group_index n r); simpl; auto; try (f_equal; lia).
+Qed.
+
+Lemma writer_index_layer_index : forall gs own p, NoDup (List.concat gs) ->
+  writer_index gs own p = layer_index gs own p.
+Proof.
+  intros. unfold writer_index, layer_index. destruct (own p); auto.
+  rewrite writer_of_group_index by assumption. destruct (group_index s gs); reflexivity.
+Qed.
+
+Lemma split_each_file_once_spec : forall gs own es layers,
+  NoDup (List.concat gs) -> split_layers gs own es = Ok layers ->
+  List.length layers = S (List.length gs) /\
+  (forall i, i < List.length layers ->
+     filter nondir (nth i layers []) =
+     filter (fun e => nondir e && option_eqb Nat.eqb (layer_index gs own (e_path e)) (Some i)) es) /\
+  (forall i e, In e es -> layer_index gs own (e_path e) = Some i -> In e (nth i layers [])).
+Proof.
+  intros gs own es layers Hnd H. destruct (split_each_file_once gs own es layers H) as [Hl [Hf Ha]].
+  repeat split; auto.
+  - intros i _. rewrite Hf. apply filter_ext. intros e. unfold assigned. rewrite writer_index_layer_index by exact Hnd. reflexivity.
+  - intros i e He Hi. apply Ha; auto. unfold assigned. rewrite writer_index_layer_index by exact Hnd. rewrite Hi. simpl. apply Nat.eqb_refl.
+Qed.
+
+(* ---- grouping: every package in exactly one group --------------------------------------- *)
+Lemma add_by_origin_perm : forall p gs, Permutation (List.concat (add_by_origin p gs)) (p :: List.concat gs).
+Proof.
+  induction gs as [| g r IH]; simpl; auto.
+  destruct (has_origin (p_origin p) g); simpl.
+  - rewrite <- app_assoc. simpl. apply Permutation_sym, Permutation_middle.
+  - eapply perm_trans; [apply Permutation_app_head; exact IH|]. apply Permutation_sym, Permutation_middle.
+Qed.
+
+Lemma by_origin_perm_gen : forall pkgs gs0,
+  Permutation (List.concat (fold_left (fun gs p => add_by_origin p gs) pkgs gs0)) (List.concat gs0 ++ pkgs).
+Proof.
+  induction pkgs as [| p r IH]; intros gs0; simpl.
+  - rewrite app_nil_r. auto.
+  - eapply perm_trans; [apply IH|]. eapply perm_trans; [apply Permutation_app_tail, add_by_origin_perm|].
+    simpl. apply Permutation_middle.
+Qed.
+Lemma by_origin_perm : forall pkgs, Permutation (List.concat (by_origin pkgs)) pkgs.
+Proof. intros. unfold by_origin. apply (by_origin_perm_gen pkgs []). Qed.
+
+Lemma has_name_in : forall n g, has_name n g = true <-> In n (map p_name g).
+Proof.
+  intros. unfold has_name. rewrite existsb_exists. split.
+  - intros [p [Hp E]]. apply String.eqb_eq in E. subst. apply in_map. exact Hp.
+  - intros H. apply in_map_iff in H. destruct H as [p [E Hp]]. exists p. split; auto. apply String.eqb_eq. exact E.
+Qed.
+
+Lemma remove_group_id : forall n gs, (forall g, In g gs -> has_name n g = false) -> remove_group n gs = gs.
+Proof.
+  induction gs as [| g r IH]; intros H; simpl; auto.
+  rewrite (H g) by (simpl; auto). simpl. rewrite IH; auto. intros; apply H; simpl; auto.
+Qed.
+
+Lemma find_group_remove_perm : forall n gs g,
+  NoDup (map p_name (List.concat gs)) -> find_group n gs = Some g ->
+  Permutation (List.concat gs) (g ++ List.concat (remove_group n gs)).
+Proof.
+  induction gs as [| g0 r IH]; intros g Hnd H; simpl in *; [discriminate|].
+  destruct (has_name n g0) eqn:E; simpl.
+  - inversion H; subst. rewrite remove_group_id; auto.
+    intros g' Hg'. destruct (has_name n g') eqn:E'; auto. exfalso.
+    apply has_name_in in E. apply has_name_in in E'. rewrite map_app in Hnd.
+    revert Hnd E E' Hg'. clear. intros Hnd E E' Hg'.
+    assert (In n (map p_name (List.concat r))).
+    { rewrite concat_map. apply in_concat. exists (map p_name g'). split; auto. apply in_map. exact Hg'. }
+    induction (map p_name g) as [| x l IHl]; simpl in *; [contradiction|].
+    inversion Hnd; subst. destruct E as [-> | E]; [apply H2; apply in_or_app; auto | apply IHl; auto].
+  - assert (Hr : NoDup (map p_name (List.concat r))).
+    { rewrite map_app in Hnd. clear -Hnd. induction (map p_name g0) as [| x l IHl]; simpl in Hnd; auto. inversion Hnd; auto. }
+    eapply perm_trans; [apply Permutation_app_head, (IH g Hr H)|]. apply Permutation_app_swap_app.
+Qed.
+
+Lemma find_group_filter : forall n (P : grp -> bool) gs g,
+  find_group n gs = Some g -> P g = true -> find_group n (filter P gs) = Some g.
+Proof.
+  induction gs as [| g0 r IH]; intros g H HP; simpl in *; [discriminate|].
+  destruct (has_name n g0) eqn:E.
+  - inversion H; subst. rewrite HP. simpl. rewrite E. reflexivity.
+  - destruct (P g0); simpl; [rewrite E|]; apply IH; auto.
+Qed.
+
+Lemma names_concat : forall l : list grp, List.concat (map names_of l) = map p_name (List.concat l).
+Proof. induction l as [| g r IH]; simpl; auto. rewrite map_app, IH. reflexivity. Qed.
+
+Section GP.
+  Variable rep_name : string -> string.
+  Variable rep_sat : string -> pkg -> res bool.
+  Variable pkgs0 : list pkg.
+  Hypothesis names_distinct : NoDup (map p_name pkgs0).
+
+  Definition part (gs : list grp) : Prop := Permutation (List.concat gs) pkgs0.
+
+  Lemma part_nodup : forall gs, part gs -> NoDup (map p_name (List.concat gs)).
+  Proof. intros gs H. eapply Permutation_NoDup; [| exact names_distinct]. apply Permutation_map, Permutation_sym, H. Qed.
+
+  Lemma merge_one_part : forall pn gs rep gs', part gs -> merge_one rep_name rep_sat pn (Ok gs) rep = Ok gs' -> part gs'.
+  Proof.
+    intros pn gs rep gs' Hp H. unfold merge_one in H. cbn [rbind] in H.
+    destruct (find_group (rep_name rep) gs) as [replacee|] eqn:E1; [| inversion H; subst; exact Hp].
+    destruct (find_pkg (rep_name rep) replacee) as [q|]; [| inversion H; subst; exact Hp].
+    destruct (rep_sat rep q) as [ok| | |]; try discriminate. cbn [rbind] in H.
+    destruct ok; simpl in H; [| inversion H; subst; exact Hp].
+    destruct (find_group pn gs) as [g|] eqn:E2; [| discriminate].
+    destruct (has_name pn replacee) eqn:E3; inversion H; subst; [exact Hp|]. clear H.
+    unfold part in *. eapply perm_trans; [| exact Hp]. apply Permutation_sym.
+    pose proof (part_nodup gs Hp) as Hnd.
+    eapply perm_trans; [apply (find_group_remove_perm pn gs g Hnd E2)|]. simpl. rewrite <- app_assoc.
+    apply Permutation_app_head.
+    apply find_group_remove_perm.
+    - assert (Q : Permutation (List.concat gs) (g ++ List.concat (remove_group pn gs))) by (apply find_group_remove_perm; auto).
+      apply (Permutation_map p_name) in Q. apply (Permutation_NoDup Q) in Hnd. rewrite map_app in Hnd.
+      clear -Hnd. induction (map p_name g) as [| x l IHl]; simpl in Hnd; auto. inversion Hnd; auto.
+    - apply find_group_filter; auto. rewrite E3. reflexivity.
+  Qed.
+
+  Lemma merge_one_absorb : forall pn acc rep, merge_one rep_name rep_sat pn acc rep = rbind acc (fun gs => merge_one rep_name rep_sat pn (Ok gs) rep).
+  Proof. intros. destruct acc; reflexivity. Qed.
+
+  Lemma fold_merge_one_part : forall pn reps acc gs', fold_left (merge_one rep_name rep_sat pn) reps acc = Ok gs' ->
+    exists gs, acc = Ok gs /\ (part gs -> part gs').
+  Proof.
+    induction reps as [| rep r IH]; intros acc gs' H; simpl in H.
+    - exists gs'. split; auto.
+    - apply IH in H. destruct H as [gs1 [E Hp]]. rewrite merge_one_absorb in E.
+      destruct acc as [gs| | |]; try discriminate. cbn [rbind] in E. exists gs. split; auto.
+      intros Hg. apply Hp. eapply merge_one_part; eauto.
+  Qed.
+
+  Lemma merge_all_part : forall ord gs gs', part gs -> merge_all rep_name rep_sat ord gs = Ok gs' -> part gs'.
+  Proof.
+    unfold merge_all. intros ord. 
+    assert (G : forall acc gs', fold_left (merge_pkg rep_name rep_sat) ord acc = Ok gs' -> exists gs, acc = Ok gs /\ (part gs -> part gs')).
+    { induction ord as [| pr r IH]; intros acc gs' H; simpl in H.
+      - exists gs'. split; auto.
+      - apply IH in H. destruct H as [gs1 [E Hp]]. unfold merge_pkg in E. apply fold_merge_one_part in E.
+        destruct E as [gs [-> Hq]]. exists gs. split; auto. }
+    intros gs gs' Hp H. apply G in H. destruct H as [gs0 [E Hq]]. inversion E; subst. auto.
+  Qed.
+
+  Lemma insert_grp_perm : forall x l, Permutation (x :: l) (insert_grp x l).
+  Proof.
+    induction l as [| y r IH]; simpl; auto. destruct (grp_leb x y); auto.
+    eapply perm_trans; [apply perm_swap|]. apply perm_skip. exact IH.
+  Qed.
+  Lemma sort_grps_perm : forall l, Permutation l (sort_grps l).
+  Proof. induction l as [| x r IH]; simpl; auto. eapply perm_trans; [apply perm_skip; exact IH | apply insert_grp_perm]. Qed.
+  Lemma insert_pkg_perm : forall x l, Permutation (x :: l) (insert_pkg x l).
+  Proof.
+    induction l as [| y r IH]; simpl; auto. destruct (pkg_leb x y); auto.
+    eapply perm_trans; [apply perm_swap|]. apply perm_skip. exact IH.
+  Qed.
+  Lemma sort_pkgs_perm : forall l, Permutation l (sort_pkgs l).
+  Proof. induction l as [| x r IH]; simpl; auto. eapply perm_trans; [apply perm_skip; exact IH | apply insert_pkg_perm]. Qed.
+
+  Lemma concat_perm : forall A (l l' : list (list A)), Permutation l l' -> Permutation (List.concat l) (List.concat l').
+  Proof.
+    induction 1; simpl; auto.
+    - apply Permutation_app_head. auto.
+    - rewrite !app_assoc. apply Permutation_app_tail, Permutation_app_comm.
+    - eapply perm_trans; eauto.
+  Qed.
+  Lemma concat_map_sort_perm : forall l, Permutation (List.concat (map sort_pkgs l)) (List.concat l).
+  Proof.
+    induction l as [| g r IH]; simpl; auto. apply Permutation_app; auto. apply Permutation_sym, sort_pkgs_perm.
+  Qed.
+  Lemma cut_budget_concat : forall b l, List.concat (cut_budget b l) = List.concat l.
+  Proof.
+    intros. unfold cut_budget. destruct (Z.of_nat (List.length l) >? b)%Z; auto.
+    rewrite concat_app. simpl. rewrite app_nil_r, <- concat_app, firstn_skipn. reflexivity.
+  Qed.
+
+  Lemma group_with_partition : forall o3 o4 budget gs,
+    (forall l, Permutation (o4 l) l) ->
+    group_with rep_name rep_sat o3 o4 pkgs0 budget = Ok gs ->
+    Permutation (List.concat (map names_of gs)) (map p_name pkgs0).
+  Proof.
+    intros o3 o4 budget gs Ho4 H. unfold group_with in H.
+    destruct (merge_all rep_name rep_sat (o3 (replace_map pkgs0)) (by_origin pkgs0)) as [m| | |] eqn:E; try discriminate.
+    cbn [rbind] in H. inversion H; subst. clear H.
+    apply merge_all_part in E; [| apply by_origin_perm].
+    rewrite (names_concat (map sort_pkgs (cut_budget budget (sort_grps (o4 m))))).
+    apply Permutation_map.
+    eapply perm_trans; [apply concat_map_sort_perm|]. rewrite cut_budget_concat.
+    eapply perm_trans; [apply concat_perm, Permutation_sym, sort_grps_perm|].
+    eapply perm_trans; [apply concat_perm, Ho4|]. exact E.
+  Qed.
+End GP.
+
+(* alignStacks returns the main stack minus the common prefix *)
+Lemma align_suffix : forall main l, exists pre, main = pre ++ align main l /\ List.length pre <= List.length l.
+Proof.
+  induction main as [| m mr IH]; intros l; simpl.
+  - exists []. split; auto. simpl. lia.
+  - destruct l as [| x lr]; [exists []; split; auto|].
+    destruct (path_eqb (e_path m) (e_path x)).
+    + destruct (IH lr) as [pre [E Hl]]. exists (m :: pre). split; [simpl; rewrite <- E; reflexivity | simpl; lia].
+    + exists []. split; auto. simpl. lia.
+Qed.
